@@ -50,6 +50,11 @@ CONFIGS = {
               {"tag": "B", "id": 4, "peers": ["peer2.verif.example"], "realms": [RX, R2]},
               {"tag": "C", "id": 16777251, "peers": ["peer3.other.example"], "realms": [R1, RX]},
               {"tag": "D", "id": 16777251, "peers": ["peer1.verif.example"], "realms": [RX, RX]}]),
+    # names spelled with capitals, in the configuration and - octet for octet the same - in the requests
+    "realms_spelled_with_capitals": dict(
+        peers=[{"name": "peer1.verif.example"}, {"name": "peer2.other.example", "realm": "Other.Example"}],
+        apps=[{"tag": "A", "id": 4, "peers": ["peer1.verif.example"], "realms": ["Visited.Extra.EXAMPLE"]},
+              {"tag": "B", "id": 16777251, "peers": ["peer2.other.example"], "realms": ["Visited.Extra.EXAMPLE", "ROAMING.example"]}]),
     # the node's own realm is served although no application has a peer in it, no default peer sits in it and it
     # is nobody's additional realm: a request for it is unsupported (3007), not unroutable (3003)
     "apps_only_for_peers_in_other_realms": dict(
@@ -414,6 +419,14 @@ def run_shard(spec):
             peer_names = [p["name"] for p in cfg["peers"]]
             app_ids = sorted({a["id"] for a in cfg["apps"]}) + [99]
             realms = [R1, R2, RX, "foreign.example", "unserved.example"]
+            # ... and every realm of this configuration exactly as it is spelled there
+            for x in [p.get("realm", R1) for p in cfg["peers"]] + [r for a in cfg["apps"] for r in a.get("realms") or []]:
+                if x not in realms:
+                    realms.append(x)
+            # a name that differs from a configured one in letter case only is neither clearly served nor clearly
+            # foreign (the statement does not say how realms compare): not asked
+            conf = {R1} | {p.get("realm", R1) for p in cfg["peers"]} | {r for a in cfg["apps"] for r in a.get("realms") or []}
+            realms = [x for x in realms if x in conf or x.lower() not in {c.lower() for c in conf}]
             for ci, cls in enumerate(classes):
                 if ci % spec["parts"] != spec["part"]:
                     continue
